@@ -6,7 +6,7 @@
    never observes it).  "Repeating a failed call gives the same error and state" is decided by the correspondence and
    on the implementation (C10_repeat_partial): it is not a theorem. *)
 From Coq Require Import ZArith List Bool.
-From Ckl Require Import Model.Session Proofs.SessionProofs.
+From Ckl Require Import Model.Session Proofs.SessionProofs Proofs.SessionFuel.
 Import ListNotations.
 Open Scope Z_scope.
 
@@ -32,6 +32,13 @@ Print Assumptions C10_failed_call_keeps_definitions.
 Theorem C10_instances_separate : forall p cs s0 s1, fst (fst (run_hist p (map (pair true) cs) s0 s1)) = s0.
 Proof. exact instances_separate. Qed.
 Print Assumptions C10_instances_separate.
+
+(* the out-of-fuel outcome never occurs: the loader's recursion is bounded by the cycle check, so for every set of fewer than
+   40 module files (the model's fuel) the statement above holds for EVERY history, without premise *)
+Theorem C10_history_clean_total : forall p h s0 s1, (length p < FUEL)%nat -> clean s0 -> clean s1 ->
+  clean (fst (fst (run_hist p h s0 s1))) /\ clean (snd (fst (run_hist p h s0 s1))).
+Proof. exact history_clean_total. Qed.
+Print Assumptions C10_history_clean_total.
 
 Example C10_nonvacuous : clean s_init. Proof. exact clean_init. Qed.
 (* a failed require followed by the same require: the same error, not a bogus circular dependency *)
